@@ -8,7 +8,7 @@ from fractions import Fraction
 import numpy as np
 
 from .. import ring, npmodel, admodels
-from ..ring import P, sym, diff, is_zero, ZERO, ONE, Poly
+from ..ring import P, sym, diff, is_zero, subs, ZERO, ONE, Poly
 from ..common import list_modules, functions_in, finish_info, where_of, symarray, new_interp, method_where
 from ..interp import FunctionValue, InterpRaise
 
@@ -70,11 +70,95 @@ def tasks(tier):
     for cfg in ("mu+bulk", "mu", "bulk", "Volumetric"):
         ts.append(("NeoHooke[%s] out= buffers" % cfg, "run_included", dict(modname="c03", fname="run_neohooke", kwargs=dict(cfg=cfg), oid="C12.O2", select_oid="C03.O1o",
                                                                      why="agreement with the AD version must hold for the values the hand-coded model returns into a supplied (dirty) out buffer")))
+    # O6: the documented initial moduli (frozen table DOC_MODULI, each entry confirmed by reading the docstring)
+    from . import c11
+    for backend, mn, name in c11._ad_models(it):
+        if name in DOC_MODULI:
+            ts.append(("initial moduli %s.%s" % (backend, name), "run_initial_moduli", dict(backend=backend, modname=mn, name=name)))
     ts.append(("linear-family", "run_linear_family", {}))
     ts.append(("plane", "run_plane", {}))
     ts.append(("orthotropic", "run_orthotropic", {}))
     ts.append(("canary", "run_canary", {}))
     return ts
+
+
+# documented initial shear (and bulk) modulus of the isotropic models, as functions of the parameter symbols (lists: one symbol per term).
+# Frozen from the docstrings (Eq. labels in brackets); a model without a documented closed form has no entry.
+def _S(xs):
+    return sum(xs, ZERO)
+
+
+DOC_MODULI = {
+    "neo_hooke": (lambda p: p["mu"], None, "parameter mu: 'Shear modulus'"),
+    "mooney_rivlin": (lambda p: 2 * (p["C10"] + p["C01"]), None, "[shear-modulus-mr] mu = 2 (C10 + C01)"),
+    "yeoh": (lambda p: 2 * p["C10"], None, "[shear-modulus-yeoh] mu = 2 C10"),
+    "third_order_deformation": (lambda p: 2 * (p["C10"] + p["C01"]), None, "[shear-modulus-tod] mu = 2 (C10 + C01)"),
+    "ogden": (lambda p: _S(p["mu"]), None, "[shear-modulus-ogden] mu = sum_i mu_i"),
+    "storakers": (lambda p: _S(p["mu"]), lambda p: _S([2 * m * (Fraction(1, 3) + b) for m, b in zip(p["mu"], p["beta"])]),
+                  "[shear-modulus-foam] mu = sum_i mu_i, [bulk-modulus-foam] K = sum_i 2 mu_i (1/3 + beta_i)"),
+    "lopez_pamies": (lambda p: _S(p["mu"]), None, "[shear-modulus-lp] mu = sum_r mu_r"),
+    "blatz_ko": (lambda p: p["mu"], None, "parameter mu: 'The shear modulus'; [psi-blatz-ko] psi = mu/2 (I2/I3 + 2 sqrt(I3) - 5)"),
+    "alexander": (lambda p: 2 * (p["C1"] + p["C2"] * ring.inv(p["gamma"]) + p["C3"]), None, "[shear-modulus-alexander] mu = 2 (C1 + C2/gamma + C3)"),
+    "anssari_benam_bucchi": (lambda p: p["mu"] * (1 - 3 * p["N"]) * ring.inv(3 - 3 * p["N"]), None, "[shear-modulus-abb] mu_0 = mu (1 - 3N)/(3 - 3N)"),
+    "extended_tube": (lambda p: p["Gc"] + p["Ge"], None, "[shear-modulus-et] mu = Ge + Gc (closed form at delta = 0: evaluated there)"),
+    "arruda_boyce": (lambda p: p["C1"] * (1 + Fraction(3, 5) * ring.inv(p["limit"] ** 2) + Fraction(99, 175) * ring.inv(p["limit"] ** 4) + Fraction(513, 875) * ring.inv(p["limit"] ** 6)
+                                         + Fraction(42039, 67375) * ring.inv(p["limit"] ** 8)), None, "[shear-modulus-ab] mu = C1 (1 + 3/(5 lm^2) + 99/(175 lm^4) + 513/(875 lm^6) + 42039/(67375 lm^8))"),
+    "saint_venant_kirchhoff": (lambda p: p["mu"], lambda p: p["lmbda"] + Fraction(2, 3) * p["mu"], "parameters mu, lmbda: the Lame constants (k = 2)"),
+}
+
+
+def run_initial_moduli(col, backend, modname, name):
+    """O6: second-order jet of the energy at C = 1 along an isochoric uniaxial path (C = diag(s^2, 1/s, 1/s): W'' = 3 mu_0) and along the
+    volumetric path (C = s^2 1: W'' = 9 K_0), for symbolic parameters, against the documented closed forms"""
+    from . import c11
+
+    it = admodels.new_model_interp()
+    pkg = modname.rsplit(".", 1)[0]
+    it.module(pkg)
+    fobj = it.get(modname + ":" + name)
+    m = it.module(modname)
+    node = [n for n in m.tree.body if isinstance(n, ast.FunctionDef) and n.name == name][0]
+    where = "%s:%d" % (modname.replace("felupe.", ""), node.lineno)
+    kw, names = c11._params(it, node, fobj)
+    if name in ("ogden", "storakers", "lopez_pamies"):
+        for k_, v_ in list(kw.items()):
+            if isinstance(v_, list) and len(v_) < 2:
+                kw[k_] = [sym("par_%s%d" % (k_, i_), True) for i_ in range(2)]
+    if name == "extended_tube":
+        kw["delta"] = ZERO  # the documented closed form is that of delta = 0
+    C = admodels.world_C("diag")
+    cs = [C[i, i] for i in range(3)]
+    npmodel.MAX_CASE[0] = "first"
+    try:
+        W = it.call(fobj, [C], dict(kw))
+    finally:
+        npmodel.MAX_CASE[0] = None
+    W = P(W[0] if isinstance(W, tuple) else W)
+    at1 = {c: ONE for c in cs}
+    H = [[subs(diff(diff(W, cs[i]), cs[j]), at1) for j in range(3)] for i in range(3)]
+    g = [subs(diff(W, cs[i]), at1) for i in range(3)]
+    mu_doc, K_doc, reason = DOC_MODULI[name]
+    label = "%s.%s" % (backend, name)
+
+    def jet(v):
+        # d^2/ds^2 W(c(s)) at s = 1 with c'(1) = v and, for c_i = s^k_i, c_i''(1) = k_i (k_i - 1); the first derivatives vanish at a stress-free state
+        tot = ZERO
+        for i in range(3):
+            for j in range(3):
+                tot = tot + H[i][j] * v[i] * v[j]
+            tot = tot + g[i] * (v[i] * (v[i] - 1))
+        return tot
+
+    mu0 = jet([2, -1, -1]) * Fraction(1, 3)
+    okm = is_zero(mu0 - mu_doc(kw))
+    col.add("C12.O6", "%s initial shear modulus" % label, "the tangent at the undeformed state has the initial shear modulus the documentation states (%s)" % reason, okm,
+            "%s: the energy gives mu_0 = %s, documented %s" % (where, ring.fmt(mu0, 6), ring.fmt(P(mu_doc(kw)), 6)))
+    if K_doc is not None:
+        K0 = jet([2, 2, 2]) * Fraction(1, 9)
+        okk = is_zero(K0 - K_doc(kw))
+        col.add("C12.O6", "%s initial bulk modulus" % label, "the tangent at the undeformed state has the initial bulk modulus the documentation states (%s)" % reason, okk,
+                "%s: the energy gives K_0 = %s, documented %s" % (where, ring.fmt(K0, 6), ring.fmt(P(K_doc(kw)), 6)))
+    finish_info(col, it)
 
 
 def run_discovery(col):
